@@ -868,7 +868,7 @@ def expNormal (exp : K → K) (d0 d1 d2 kvNorm maxNormalForce pz vz : K) : ExpOu
   let fzElas := d1 * exp (-d2 * (pz - d0))
   let fzDamp := -kvNorm * vz * fzElas
   let fz := fzElas + fzDamp
-  let o1 : ExpOut K := ⟨fzElas, fzDamp, fz⟩
+  let o1 : ExpOut K := if fz < 0 then ⟨fzElas, -fzElas, 0⟩ else ⟨fzElas, fzDamp, fz⟩
   if maxNormalForce < o1.fz then ⟨maxNormalForce - o1.fzDamp, o1.fzDamp, maxNormalForce⟩ else o1
 
 /-- documented (ExponentialSpringForce.h): `fz = d₁exp(−d₂(pz−d₀)) (1 − cz vz)` -/
